@@ -106,6 +106,9 @@ def optimal_clone(
     # Q = ∑_{k=1}^N p_k |ψ_k ⊗ ψ_k ⊗ ψ_k> <ψ_k ⊗ ψ_k ⊗ ψ_k|
     q_a = np.zeros((dim, dim), dtype=complex)
     for k, state in enumerate(states):
+        if state.ndim == 1:
+            # A state given as a 1-D array is a ket.
+            state = state.reshape(-1, 1)
         q_a += probs[k] * tensor(state, state, state.conj()) @ tensor(state, state, state.conj()).conj().T
 
     # The system is over:
